@@ -18,3 +18,13 @@ check("C12",
       TB + "TLC integers are 32-bit, so coordinates stay below 2^31.",
       "TLA+ spec (Bins/BinsX) + Apalache lemmas for all coordinates + TLC boundary enumeration + trace validation of real calls (Trace_Bins)",
       engine="tlc+apalache")
+
+check("C06",
+      "RegionI/Region.tla transcribe the SQL predicates of FeatureDB.region and helpers.make_query(limit=) including the bin pre-filter and its guards "
+      "(algorithmic layer, on top of Bins) and state C06 as interval arithmetic with must/may sets for one-sided bounds (declarative layer). "
+      "Apalache proves soundness and completeness of the algorithm, i.e. that the index can never drop a feature, for ALL coordinates up to 2^29+2^20; "
+      "TLC checks the same pointwise on boundary coordinates. Real databases (all pairs of boundary coordinates; random ones) are queried through every "
+      "API form and every returned id list is judged by Trace_Region against the declarative layer (dup / missing / extra).",
+      TB + "Features without coordinates are outside the domain; coordinates < 2^31.",
+      "TLA+ spec (RegionI/Region on Bins) + Apalache soundness/completeness lemmas + TLC pointwise check + trace validation of real queries (Trace_Region)",
+      engine="tlc+apalache")
